@@ -1,6 +1,7 @@
 """C09 -- Stewart platform: IK is exact geometry and FK inverts it (sp_model.SP, SPIKinSpace, SPFKinSpaceR)."""
 import math
 import random
+import re
 import warnings
 
 import numpy as np
@@ -349,10 +350,17 @@ def _fk_roundtrip(case, ctx):
     e_len = float(np.abs(Lnow - L).max())
     ctx.label("fk err/h " + _decade(max(e_ret, e_state, e_top, e_len, 1e-300), h))
     ctx.label("FK valid=%s" % bool(ret[1]))
-    fails = getattr(sp, "fail_count", 0)
+    fails = int(getattr(sp, "fail_count", 0) or 0)
     if fails:
-        ctx.label("solver fallback used")
-    msg = "FK(mode %d, h=%.4g, tol=%.3g)" % (mode, h, tol)
+        ctx.label("solver fail_count>0")
+    # signature of "the Raphson solver ran out of iterations and put the platform back to neutral" (public fail_count
+    # attribute + the plates standing exactly at neutral): named in the message so that the known-finding region
+    # predicate can be as narrow as that defect
+    tag = ""
+    if fails and _pose_err(model, Tt_now, sps.neutral_top(model, T_bot)) <= 1e-9 * max(1.0, model.scale, big):
+        tag = "[raphson-gave-up ratio=%.6f rot=%.6f flat=%d] " % (
+            model.spec["rt"] / model.spec["rb"], float(np.linalg.norm(u[3:])), int(h < model.lmin / 2))
+    msg = "%sFK(mode %d, h=%.4g, tol=%.3g)" % (tag, mode, h, tol)
     if e_ret > tol:
         raise Violation("%s: returned pose is %.3g from the goal pose (largest displacement of a top-plate point)"
                         % (msg, e_ret))
@@ -362,6 +370,28 @@ def _fk_roundtrip(case, ctx):
         raise Violation("%s: getBottomT()^-1 getTopT() is %.3g from the goal relative pose" % (msg, e_state))
     if e_len > tol:
         raise Violation("%s: getLens() differs from the requested lengths by %.3g" % (msg, e_len))
+
+
+_TAG = re.compile(r"\[raphson-gave-up ratio=([0-9.]+) rot=([0-9.]+) flat=(\d)\]")
+
+
+def raphson_region(case, message):
+    """Proposed open known finding C09-raphson-inexact-jacobian: SPFKinSpaceR's orientation columns are Euler-angle
+    partials although the unknowns are a rotation vector; the iteration is then not locally convergent for a small top
+    plate under a large tilt, runs out of iterations and FK silently returns the neutral pose.  Region: the solver gave
+    up (signature above) AND top/bottom radius ratio <= 0.40 AND |rotation vector| >= 0.25 AND the platform is not
+    'flat' (h >= leg_ext_min/2; the flat case is the separate, fixed, height-clamp defect)."""
+    m = _TAG.search(message)
+    if not m:
+        return None
+    spec = case["spec"]
+    ratio = spec["rt"] / spec["rb"]
+    rot = float(m.group(2))
+    if rot > float(np.linalg.norm(np.asarray(case["u"], dtype=float)[3:])) + 1e-6:
+        return None
+    if ratio <= 0.40 and rot >= 0.25 and m.group(3) == "0":
+        return "raphson_small_top_large_tilt"
+    return None
 
 
 # ------------------------------------------------------------------------------------------ strategies
@@ -439,7 +469,7 @@ def _fk_cases(kind):
 CLAUSES = [
     Clause("ik_exact_geometry", c_ik_exact, _ik_cases(), 300, 10000),
     Clause("ik_rigid_motion_invariance", c_ik_invariance, _inv_cases(), 250, 10000),
-    Clause("fk_inverts_ik", _fk_roundtrip, _fk_cases("fresh"), 300, 10000),
-    Clause("fk_inverts_ik_moved", _fk_roundtrip, _fk_cases("moved"), 250, 10000),
-    Clause("fk_inverts_ik_spun", _fk_roundtrip, _fk_cases("spun"), 250, 10000),
+    Clause("fk_inverts_ik", _fk_roundtrip, _fk_cases("fresh"), 300, 10000, region=raphson_region),
+    Clause("fk_inverts_ik_moved", _fk_roundtrip, _fk_cases("moved"), 250, 10000, region=raphson_region),
+    Clause("fk_inverts_ik_spun", _fk_roundtrip, _fk_cases("spun"), 250, 10000, region=raphson_region),
 ]
